@@ -302,6 +302,10 @@ Definition tdef_sdl (t : tdef) : bool :=
   | _ => true
   end.
 
+(* enum value names are unique (the builder rejects a repeated name) *)
+Definition enum_names_unique (sc : schema) : bool :=
+  forallb (fun t => match t with TEnum _ _ vs _ => negb (has_dup (map sev_name vs)) | _ => true end) (s_types sc).
+
 Definition schema_okb (sc : schema) : bool :=
   validate_schema sc
   && forallb tdef_sdl (s_types sc)
@@ -309,7 +313,8 @@ Definition schema_okb (sc : schema) : bool :=
   && negb (has_dup (map tdef_name (s_types sc))) && negb (has_dup (map dd_name (s_ddefs sc)))
   && forallb (fun t => negb (default_type_name (tdef_name t))) (s_types sc)
   && negb (overrides_specified_directive (s_ddefs sc))
-  && refs_known (map (fun t => (tdef_name t, tdef_kind t)) (s_types sc)) (s_types sc).
+  && refs_known (map (fun t => (tdef_name t, tdef_kind t)) (s_types sc)) (s_types sc)
+  && enum_names_unique sc.
 
 (* Applied directives named like a specified one (@deprecated) are already
    accounted for by the deprecation reason: the comparison leaves them out. *)
